@@ -3,7 +3,7 @@
     shardedSearcher.List aggregation).  Per-shard search is the reference meaning [eval] of the query on the
     shard's documents; content atoms are arbitrary per-document predicates; shards are arbitrary lists of
     repositories (simple, compound, a repository split over several shards, unknown repository lists). *)
-From ZV Require Import Lib.Base Model.Shards Proofs.Shards.
+From ZV Require Import Lib.Base Model.Shards Proofs.Shards Proofs.ShardsBranches.
 
 (** Pre-selecting shards by the first repository-set child and rewriting that child (to Const true, or to an
     exact Branch filter) never adds or removes a file: the sharded answer is, shard by shard and in shard
@@ -23,6 +23,30 @@ Theorem C18_select_pointwise : forall shards cs sel cs',
        forall rd d, In rd (sh_parts s) -> In d (snd rd) -> eval_top no_tr cs' (fst rd) d = eval_top no_tr cs (fst rd) d).
 Proof. intros shards cs sel cs' H. exact (do_select_spec no_tr cs [] shards sel cs' H). Qed.
 Print Assumptions C18_select_pointwise.
+
+(** FileMatch.Branches (indexData.gatherBranches: the branches contributed by the visited branch atoms of the
+    per-shard SIMPLIFIED query, or all branches of the file when there is none): selection and rewrite change
+    neither the files nor the branches reported for them — (file, Branches) pairs of the sharded searcher are,
+    shard by shard, those of every loaded shard answering the original query. *)
+Theorem C18_select_sound_with_branches : forall shards cs,
+  sharded_search_br shards cs = flat_map (search_shard_br cs) shards.
+Proof. exact select_sound_br. Qed.
+Print Assumptions C18_select_sound_with_branches.
+
+(** ... they are the files of [C18_select_sound]; reported branches are branches of the file, listed in the
+    repository's branch order; all of them when no branch atom contributes; only the requested one under a
+    top-level exact branch filter. *)
+Theorem C18_reported_branches : forall cs s r d,
+  map fst (search_shard_br cs s) = search_shard cs s /\
+  (forall b, In b (file_branches cs s r d) -> In b (r_branches r) /\ memN b (d_branches d) = true) /\
+  (flat_map (fun c => bcontrib (simp_sh s c) r d) cs = [] ->
+   file_branches cs s r d = filter (fun b => memN b (d_branches d)) (r_branches r)) /\
+  (forall b b', N.eqb b HEAD = false -> In b' (file_branches [QBranchExact b] s r d) -> in_branch r d b = true -> b' = b).
+Proof.
+  intros cs s r d. split; [apply search_shard_br_files|]. split; [apply file_branches_sub|].
+  split; [apply file_branches_all | intros b b'; apply file_branches_exact].
+Qed.
+Print Assumptions C18_reported_branches.
 
 (** List goes through the same selection: it equals the per-shard listings of ALL shards for the original
     query, merged by name. *)
@@ -86,3 +110,15 @@ Example C18_nonvacuous_typerepo :
   let q := QAnd2 (QTypeRepo (QOther (fun _ d => N.eqb (d_id d) 102))) (QBranchExact 2) in
   depth q = 1 /\ sharded_search ex_shards [expand ex_shards q] = [101; 102]%N.
 Proof. vm_compute. split; reflexivity. Qed.
+
+(** branches: document 102 is on HEAD and 2.  A BranchesRepos{2: [7]} filter reports branch 2 only (also after the
+    rewrite to Branch{2, exact}); without a branch atom both are reported; (or branch:2 <all repositories>) folds
+    to TRUE in every shard and reports both again. *)
+Example C18_nonvacuous_branches :
+  sharded_search_br ex_shards [QBranchesRepos [(2, [7])]%N] = [(101, [2]); (102, [2])]%N /\
+  sharded_search_br ex_shards [QOther (fun _ d => N.eqb (d_id d) 102)] = [(102, [HEAD; 2])]%N /\
+  sharded_search_br ex_shards [QOr2 (QBranchExact 2) (QRepoPred (fun _ => true)); QOther (fun _ d => N.eqb (d_id d) 102)]
+    = [(102, [HEAD; 2])]%N /\
+  sharded_search_br ex_shards [QOr2 (QBranchExact 2) (QOther (fun _ d => N.eqb (d_id d) 100)); QRepoPred (fun r => N.eqb (r_id r) 7)]
+    = [(100, [HEAD]); (101, [2]); (102, [2])]%N.
+Proof. vm_compute. repeat split. Qed.
